@@ -60,6 +60,9 @@ class ASTWalker:
                 if _def.__class__.__name__
                 in {"AssignmentStmt", "FuncDef", "ClassDef", "Decorator", "OverloadedFuncDef"}
             ]
+            if self._is_enum(node):
+                # An enum consists of its instances only, methods and nested classes of an enum are not part of the API
+                child_nodes = [_def for _def in child_nodes if _def.__class__.__name__ == "AssignmentStmt"]
         elif isinstance(node, FuncDef) and node.name == "__init__":
             definitions = get_funcdef_definitions(node)
             child_nodes = [_def for _def in definitions if _def.__class__.__name__ == "AssignmentStmt"]
@@ -82,6 +85,13 @@ class ASTWalker:
         if method is not None:
             method(node)
 
+    @staticmethod
+    def _is_enum(node: ClassDef) -> bool:
+        return any(
+            hasattr(superclass, "fullname") and superclass.fullname in ("enum.Enum", "enum.IntEnum")
+            for superclass in node.base_type_exprs
+        )
+
     def __get_callbacks(self, node: MypyFile | ClassDef | FuncDef | AssignmentStmt) -> _EnterAndLeaveFunctions:
         class_ = node.__class__
         class_name = class_.__name__.lower()
@@ -91,9 +101,8 @@ class ASTWalker:
             if not hasattr(node, "base_type_exprs"):  # pragma: no cover
                 raise AttributeError("Expected classdef node to have attribute 'base_type_exprs'.")
 
-            for superclass in node.base_type_exprs:
-                if hasattr(superclass, "fullname") and superclass.fullname in ("enum.Enum", "enum.IntEnum"):
-                    class_name = "enumdef"
+            if self._is_enum(node):
+                class_name = "enumdef"
         elif class_name == "mypyfile":
             class_name = "moduledef"
 
